@@ -72,42 +72,70 @@ theorem rc_prim (e : Nat) {a b : Core} (hp : CorePrim a b) (hne : ∀ ev, b = lo
 
 /-! ### the relation -/
 
+/-- how the record of an effect may evolve: once no strong reference is held outside the arena,
+none is acquired again and the arena key stays what it is -/
+def Frozen (er er' : EffRec) : Prop := er.held = false → er'.held = false ∧ er'.key = er.key
+
+theorem Frozen.refl (er : EffRec) : Frozen er er := fun h => ⟨h, rfl⟩
+theorem Frozen.trans {a b c : EffRec} (h1 : Frozen a b) (h2 : Frozen b c) : Frozen a c := by
+  intro h
+  obtain ⟨hb, hk⟩ := h1 h
+  obtain ⟨hc, hk2⟩ := h2 hb
+  exact ⟨hc, hk2.trans hk⟩
+
 structure K (e : Nat) (a st : St) : Prop where
   rc : rCount e st.log = rCount e a.log
-  key : ∀ er, a.effs[e]? = some er → ∃ er', st.effs[e]? = some er' ∧ er'.key = er.key
+  key : ∀ er, a.effs[e]? = some er → ∃ er', st.effs[e]? = some er' ∧ Frozen er er'
+  ex : e < a.effs.length
 
-theorem K.refl (e : Nat) (a : St) : K e a a := ⟨rfl, fun er h => ⟨er, h, rfl⟩⟩
+theorem K.refl (e : Nat) (a : St) (h : e < a.effs.length) : K e a a :=
+  ⟨rfl, fun er h => ⟨er, h, Frozen.refl _⟩, h⟩
+
+theorem K.lt {e : Nat} {a st : St} (h : K e a st) : e < st.effs.length := by
+  have hex := h.ex
+  cases hr : a.effs[e]? with
+  | none => rw [List.getElem?_eq_none_iff] at hr; omega
+  | some er =>
+    obtain ⟨er', h1, _⟩ := h.key er hr
+    exact lt_of_getElem?_some h1
 
 /-- a core transformer that logs no run of `e` -/
 theorem K.core {e : Nat} {a st : St} (h : K e a st) (f : Core → Core)
     (hf : rCount e (f st.toCore).log = rCount e st.log) : K e a (st.lift f) :=
-  ⟨hf.trans h.rc, h.key⟩
+  ⟨hf.trans h.rc, h.key, h.ex⟩
 
 /-- a change that leaves the log and the effect table alone -/
 theorem K.same {e : Nat} {a st st' : St} (h : K e a st) (hl : st'.log = st.log) (he : st'.effs = st.effs) :
-    K e a st' := ⟨by rw [hl]; exact h.rc, by rw [he]; exact h.key⟩
+    K e a st' := ⟨by rw [hl]; exact h.rc, by rw [he]; exact h.key, h.ex⟩
 
-theorem set_key_ok (l : List EffRec) (j : Nat) (r0 r1 : EffRec) (h0 : l[j]? = some r0) (hk : r1.key = r0.key) :
-    ∀ (i : Nat) (er : EffRec), l[i]? = some er → ∃ er' : EffRec, (l.set j r1)[i]? = some er' ∧ er'.key = er.key := by
+theorem set_key_ok (l : List EffRec) (j : Nat) (r0 r1 : EffRec) (h0 : l[j]? = some r0) (hk : Frozen r0 r1) :
+    ∀ (i : Nat) (er : EffRec), l[i]? = some er → ∃ er' : EffRec, (l.set j r1)[i]? = some er' ∧ Frozen er er' := by
   intro i er hi
   by_cases hji : j = i
   · subst hji
     rw [h0] at hi; cases hi
     exact ⟨r1, List.getElem?_set_self (lt_of_getElem?_some h0), hk⟩
-  · exact ⟨er, by rw [List.getElem?_set_ne hji]; exact hi, rfl⟩
+  · exact ⟨er, by rw [List.getElem?_set_ne hji]; exact hi, Frozen.refl _⟩
 
-/-- a change that leaves the log alone and keeps every effect's key -/
-theorem K.effs_ok {e : Nat} {a st st' : St} (h : K e a st) (hl : st'.log = st.log)
-    (he : ∀ (i : Nat) (er : EffRec), st.effs[i]? = some er → ∃ er' : EffRec, st'.effs[i]? = some er' ∧ er'.key = er.key) :
+/-- a change that keeps the count of runs of `e` and lets every record evolve as `Frozen` allows -/
+theorem K.effs_ok {e : Nat} {a st st' : St} (h : K e a st) (hl : rCount e st'.log = rCount e st.log)
+    (he : ∀ (i : Nat) (er : EffRec), st.effs[i]? = some er → ∃ er' : EffRec, st'.effs[i]? = some er' ∧ Frozen er er') :
     K e a st' := by
-  refine ⟨by rw [hl]; exact h.rc, fun er her => ?_⟩
+  refine ⟨hl.trans h.rc, fun er her => ?_, h.ex⟩
   obtain ⟨er', h1, h2⟩ := h.key er her
   obtain ⟨er'', h3, h4⟩ := he e er' h1
-  exact ⟨er'', h3, h4.trans h2⟩
+  exact ⟨er'', h3, h2.trans h4⟩
+
+/-- the record of another effect is rewritten -/
+theorem K.setOther {e : Nat} {a st st' : St} (h : K e a st) (hl : rCount e st'.log = rCount e st.log)
+    (j : Nat) (r1 : EffRec) (hne : j ≠ e) (he : st'.effs = st.effs.set j r1) : K e a st' := by
+  refine ⟨hl.trans h.rc, fun er her => ?_, h.ex⟩
+  obtain ⟨er', h1, h2⟩ := h.key er her
+  exact ⟨er', by rw [he, List.getElem?_set_ne hne]; exact h1, h2⟩
 
 theorem K.pushEff {e : Nat} {a st st' : St} (h : K e a st) (hl : rCount e st'.log = rCount e st.log) (x : EffRec)
     (he : st'.effs = st.effs ++ [x]) : K e a st' := by
-  refine ⟨hl.trans h.rc, fun er her => ?_⟩
+  refine ⟨hl.trans h.rc, fun er her => ?_, h.ex⟩
   obtain ⟨er', h1, h2⟩ := h.key er her
   exact ⟨er', by rw [he]; exact getElem?_append_some h1, h2⟩
 
@@ -121,7 +149,7 @@ theorem k_addSource {e : Nat} {a st : St} (h : K e a st) (me : Sub) (s : Nat) : 
   split
   · next e' =>
     split
-    · next er her => exact h.effs_ok rfl (set_key_ok _ _ _ _ her rfl)
+    · next er her => exact h.effs_ok rfl (set_key_ok _ _ _ _ her (fun hh => ⟨hh, rfl⟩))
     · exact h
   · split
     · exact h.same rfl rfl
@@ -144,7 +172,7 @@ theorem k_readSig {e : Nat} {a st : St} (h : K e a st) (s : Nat) : K e a (readSi
 theorem rc_newOwner (e : Nat) (c : Core) : rCount e (newOwner c).1.log = rCount e c.log := by
   unfold newOwner; rw [newOwnerUnder_log]
 
-theorem k_newEffect {e : Nat} {a st : St} (h : K e a st) (b : Nat) : K e a (newEffect st b) := by
+theorem k_newEffect {e : Nat} {a st : St} (h : K e a st) (b : Nat) (k : EffKind) : K e a (newEffect st b k) := by
   unfold newEffect
   refine h.pushEff ?_ _ rfl
   show rCount e (newItem (newOwner st.toCore).1 _).1.log = rCount e st.log
@@ -152,44 +180,21 @@ theorem k_newEffect {e : Nat} {a st : St} (h : K e a st) (b : Nat) : K e a (newE
 
 theorem k_newMemo {e : Nat} {a st : St} (h : K e a st) (b : Nat) : K e a (newMemo st b) := by
   unfold newMemo
-  refine ⟨?_, h.key⟩
+  refine ⟨?_, h.key, h.ex⟩
   show rCount e (newItem (newOwner st.toCore).1 _).1.log = rCount e a.log
   rw [newItem_log, rc_newOwner]; exact h.rc
 
 theorem k_newSignal {e : Nat} {a st : St} (h : K e a st) (v : Int) : K e a (newSignal st v) := by
   unfold newSignal
-  refine ⟨?_, h.key⟩
+  refine ⟨?_, h.key, h.ex⟩
   show rCount e (newItem st.toCore _).1.log = rCount e a.log
   rw [newItem_log]; exact h.rc
 
 theorem k_newOwnerHandle {e : Nat} {a st : St} (h : K e a st) : K e a (newOwnerHandle st) := by
   unfold newOwnerHandle
-  refine ⟨?_, h.key⟩
+  refine ⟨?_, h.key, h.ex⟩
   show rCount e (newOwner st.toCore).1.log = rCount e a.log
   rw [rc_newOwner]; exact h.rc
-
-theorem k_execCreate (e : Nat) (a st : St) (op : BOp) (h : K e a st) : K e a (execCreate st op) := by
-  cases op with
-  | read s => exact k_readSig h s
-  | get m => exact h
-  | cleanup tag => exact h.core (regCleanup · tag false) (by rw [regCleanup_log])
-  | nested tag => exact h.core (regCleanup · tag true) (by rw [regCleanup_log])
-  | item v => exact h.core (newStored · v) (by rw [newStored_log])
-  | sig v => exact k_newSignal h v
-  | provide ty v => exact h.core (provide · ty v) (by rw [provide_log])
-  | use ty =>
-    refine h.core (useCtx · ty) ?_
-    unfold useCtx; split
-    · exact rCount_snoc_ne e _ _ (by intro hh; cases hh)
-    · exact rCount_snoc_ne e _ _ (by intro hh; cases hh)
-  | take ty =>
-    refine h.core (takeCtx · ty) ?_
-    unfold takeCtx; split
-    · simp only; rw [modOwner_log]; exact rCount_snoc_ne e _ _ (by intro hh; cases hh)
-    · exact rCount_snoc_ne e _ _ (by intro hh; cases hh)
-  | effect b => exact k_newEffect h b
-  | memo b => exact k_newMemo h b
-  | newOwner => exact k_newOwnerHandle h
 
 theorem k_foldl {α} (e : Nat) (f : St → α → St) (hf : ∀ a st x, K e a st → K e a (f st x)) (l : List α)
     {a st : St} (h : K e a st) : K e a (l.foldl f st) := by
@@ -204,22 +209,82 @@ theorem rc_dropOwner (e : Nat) (c : Core) (o : Nat) : rCount e (dropOwner c o).l
 theorem rc_disposeKey (e : Nat) (c : Core) (k : Key) : rCount e (disposeKey c k).log = rCount e c.log :=
   rc_frames e _ _ _
 
-theorem k_runMemo {e : Nat} {a st : St} (h : K e a st) (m : Nat) : K e a (runMemo st m) := by
+/-- a token executor that keeps `K` -/
+def Kex (e : Nat) (ex : St → BOp → St) : Prop := ∀ (a st : St) (op : BOp), K e a st → K e a (ex st op)
+
+/-- a run of the body of another effect `e'` -/
+theorem k_runScoped {e : Nat} {ex : St → BOp → St} (hex : Kex e ex) {a st : St} (h : K e a st)
+    (e' o b : Nat) (hne : e' ≠ e) : K e a (runScoped ex st e' o b) := by
+  unfold runScoped
+  simp only
+  have h0 : ∀ S0 : St, S0.toCore = logEv (pushCur (cleanupOwner st.toCore o) o) (Ev.r e') →
+      S0.effs = st.effs → K e a S0 := by
+    intro S0 hc he
+    refine ⟨?_, by rw [he]; exact h.key, h.ex⟩
+    rw [hc]
+    show rCount e ((cleanupOwner st.toCore o).log ++ [Ev.r e']) = _
+    rw [rCount_snoc_ne e _ _ (by intro hh; cases hh; exact hne rfl), rc_cleanupOwner]; exact h.rc
+  have key : ∀ (body : List BOp) (S0 : St), K e a S0 → ∀ S1 : St,
+      (∃ x, S1.toCore = popCur (logEv (List.foldl ex S0 body).toCore (Ev.s e' x)) 1) →
+      S1.effs = (List.foldl ex S0 body).effs → K e a S1 := by
+    intro body S0 hS0 S1 ⟨x, hc⟩ he
+    have := k_foldl e _ hex body hS0
+    refine ⟨?_, by rw [he]; exact this.key, h.ex⟩
+    rw [hc]
+    show rCount e ((List.foldl ex S0 body).log ++ [Ev.s e' x]) = _
+    rw [rCount_snoc_ne e _ _ (by intro hh; cases hh)]; exact this.rc
+  refine key _ _ ?_ _ ⟨_, rfl⟩ rfl
+  exact h0 _ rfl rfl
+
+theorem k_pushEager {e : Nat} {a st : St} (h : K e a st) (b : Nat) (k : EffKind) : K e a (pushEager st b k) := by
+  unfold pushEager
+  refine h.pushEff ?_ _ rfl
+  show rCount e (newOwner st.toCore).1.log = rCount e st.log
+  exact rc_newOwner e _
+
+theorem k_addTask {e : Nat} {a st : St} (h : K e a st) (e' : Nat) : K e a (addTask st e') := h.same rfl rfl
+
+theorem k_finishAsync {e : Nat} {a st : St} (h : K e a st) (e' : Nat) (hne : e' ≠ e) : K e a (finishAsync st e') := by
+  unfold finishAsync
+  simp only
+  have hl : rCount e (newItem st.toCore (Val.eff e')).1.log = rCount e st.log := by rw [newItem_log]
+  split
+  · exact h.setOther hl e' _ hne rfl
+  · exact ⟨hl.trans h.rc, h.key, h.ex⟩
+
+theorem pushEager_effs_length (st : St) (b : Nat) (k : EffKind) :
+    (pushEager st b k).effs.length = st.effs.length + 1 := by
+  unfold pushEager; simp
+
+theorem k_newRender {e : Nat} {ex : St → BOp → St} (hex : Kex e ex) {a st : St} (h : K e a st) (b : Nat) :
+    K e a (newRender ex st b) := by
+  unfold newRender
+  have hne : st.effs.length ≠ e := by have := h.lt; omega
+  exact k_addTask (k_runScoped hex (k_pushEager h _ _) _ _ _ hne) _
+
+theorem k_newAsync {e : Nat} {ex : St → BOp → St} (hex : Kex e ex) {a st : St} (h : K e a st) (b : Nat) :
+    K e a (newAsync ex st b) := by
+  unfold newAsync
+  have hne : st.effs.length ≠ e := by have := h.lt; omega
+  exact k_finishAsync (k_addTask (k_runScoped hex (k_pushEager h _ _) _ _ _ hne) _) _ hne
+
+theorem k_runMemo {e : Nat} {ex : St → BOp → St} (hex : Kex e ex) {a st : St} (h : K e a st) (m : Nat) :
+    K e a (runMemo ex st m) := by
   unfold runMemo
   split
   · exact h
   · next mr _ =>
     simp only
     have key : ∀ (body : List BOp) (S0 : St), K e a S0 → ∀ S1 : St,
-        S1.toCore = popCur (List.foldl execCreate S0 body).toCore 1 →
-        S1.effs = (List.foldl execCreate S0 body).effs → K e a S1 := by
+        S1.toCore = popCur (List.foldl ex S0 body).toCore 1 →
+        S1.effs = (List.foldl ex S0 body).effs → K e a S1 := by
       intro body S0 h0 S1 hc he
-      have := k_foldl e _ (k_execCreate e) body h0
-      exact ⟨by rw [hc]; exact this.rc, by rw [he]; exact this.key⟩
+      have := k_foldl e _ hex body h0
+      exact ⟨by rw [hc]; exact this.rc, by rw [he]; exact this.key, h.ex⟩
     have h0 : ∀ S0 : St, S0.toCore = logEv (pushCur (cleanupOwner st.toCore mr.owner) mr.owner) (Ev.m m) →
         S0.effs = st.effs → K e a S0 := by
       intro S0 hc he
-      refine ⟨?_, by rw [he]; exact h.key⟩
+      refine ⟨?_, by rw [he]; exact h.key, h.ex⟩
       rw [hc]
       show rCount e ((cleanupOwner st.toCore mr.owner).log ++ [Ev.m m]) = _
       rw [rCount_snoc_ne e _ _ (by intro hh; cases hh), rc_cleanupOwner]; exact h.rc
@@ -229,72 +294,151 @@ theorem k_runMemo {e : Nat} {a st : St} (h : K e a st) (m : Nat) : K e a (runMem
     · refine key _ _ ?_ _ rfl rfl
       exact h0 _ rfl rfl
 
-theorem k_getMemo {e : Nat} {a st : St} (h : K e a st) (m : Nat) : K e a (getMemo st m) := by
+theorem k_getMemo {e : Nat} {ex : St → BOp → St} (hex : Kex e ex) {a st : St} (h : K e a st) (m : Nat) :
+    K e a (getMemo ex st m) := by
   unfold getMemo
   split
   · simp only
     have key : ∀ S1 : St, K e a S1 → ∀ v x, K e a (St.lift { S1 with acc := x } (logEv · (Ev.g m v))) := by
       intro S1 h1 v x
-      refine ⟨?_, h1.key⟩
+      refine ⟨?_, h1.key, h.ex⟩
       show rCount e (S1.log ++ [Ev.g m v]) = _
       rw [rCount_snoc_ne e _ _ (by intro hh; cases hh)]; exact h1.rc
     apply key
     split
     · split
-      · exact k_runMemo h _
+      · exact k_runMemo hex h _
       · exact h
     · exact h
-  · refine ⟨?_, h.key⟩
+  · refine ⟨?_, h.key, h.ex⟩
     show rCount e (st.log ++ [Ev.g m none]) = _
     rw [rCount_snoc_ne e _ _ (by intro hh; cases hh)]; exact h.rc
 
-theorem k_execBOp (e : Nat) (a st : St) (op : BOp) (h : K e a st) : K e a (execBOp st op) := by
-  unfold execBOp
-  split
-  · split
+theorem rc_useCtx (e : Nat) (c : Core) (ty : Nat) : rCount e (useCtx c ty).log = rCount e c.log := by
+  unfold useCtx; split
+  · exact rCount_snoc_ne e _ _ (by intro hh; cases hh)
+  · exact rCount_snoc_ne e _ _ (by intro hh; cases hh)
+
+theorem rc_takeCtx (e : Nat) (c : Core) (ty : Nat) : rCount e (takeCtx c ty).log = rCount e c.log := by
+  unfold takeCtx; split
+  · simp only; rw [modOwner_log]; exact rCount_snoc_ne e _ _ (by intro hh; cases hh)
+  · exact rCount_snoc_ne e _ _ (by intro hh; cases hh)
+
+theorem k_execWith {e : Nat} {ex : St → BOp → St} (hex : Kex e ex) : Kex e (execWith ex) := by
+  intro a st op h
+  cases op with
+  | read s => exact k_readSig h s
+  | get m =>
+    simp only [execWith]
+    split
     · exact h
-    · exact k_getMemo h _
-  · exact k_execCreate e _ _ _ h
+    · exact k_getMemo hex h _
+  | cleanup tag => exact h.core (regCleanup · tag false) (by rw [regCleanup_log])
+  | nested tag => exact h.core (regCleanup · tag true) (by rw [regCleanup_log])
+  | item v => exact h.core (newStored · v) (by rw [newStored_log])
+  | sig v => exact k_newSignal h v
+  | provide ty v => exact h.core (provide · ty v) (by rw [provide_log])
+  | use ty => exact h.core (useCtx · ty) (rc_useCtx e _ _)
+  | take ty => exact h.core (takeCtx · ty) (rc_takeCtx e _ _)
+  | effect b => exact k_newEffect h b _
+  | memo b => exact k_newMemo h b
+  | newOwner => exact k_newOwnerHandle h
+  | watch b hb imm => exact k_newEffect h b _
+  | render b => exact k_newRender hex h b
+  | async b => exact k_newAsync hex h b
+
+theorem k_exec (e : Nat) (f : Nat) : Kex e (exec f) := by
+  induction f with
+  | zero =>
+    intro a st op h
+    simp only [exec]
+    exact k_execWith (fun _ _ _ h => h) a st op h
+  | succ n ih =>
+    intro a st op h
+    simp only [exec]
+    exact k_execWith ih a st op h
+
+theorem k_execBOp (e : Nat) (a st : St) (op : BOp) (h : K e a st) : K e a (execBOp st op) := k_exec e _ a st op h
+
+theorem k_execHandlerTok (e : Nat) (a st : St) (op : BOp) (h : K e a st) : K e a (execHandlerTok st op) := by
+  cases op with
+  | read s => exact k_readSig h s
+  | cleanup tag =>
+    exact (h.core (regCleanup · tag false) (by rw [regCleanup_log])).same rfl rfl
+  | item v => exact (h.core (newStored · v) (by rw [newStored_log])).same rfl rfl
+  | sig v => exact (k_newSignal h v).same rfl rfl
+  | use ty => exact (h.core (useCtx · ty) (rc_useCtx e _ _)).same rfl rfl
+  | get m => exact h
+  | nested tag => exact h
+  | provide ty v => exact h
+  | take ty => exact h
+  | effect b => exact h
+  | memo b => exact h
+  | newOwner => exact h
+  | watch b hb imm => exact h
+  | render b => exact h
+  | async b => exact h
+
+theorem k_runHandler {e : Nat} {a st : St} (h : K e a st) (e' hb : Nat) : K e a (runHandler st e' hb) := by
+  unfold runHandler
+  simp only
+  have h1 : K e a (st.lift (logEv · (Ev.h e'))) :=
+    h.core _ (rCount_snoc_ne e _ _ (by intro hh; cases hh))
+  have h2 : ∀ S0 : St, S0.toCore = (st.lift (logEv · (Ev.h e'))).toCore → S0.effs = st.effs → K e a S0 :=
+    fun S0 hc he => ⟨by rw [hc]; exact h1.rc, by rw [he]; exact h.key, h.ex⟩
+  have key : ∀ (body : List BOp) (S0 : St), K e a S0 → ∀ S1 : St,
+      S1.toCore = (List.foldl execHandlerTok S0 body).toCore →
+      S1.effs = (List.foldl execHandlerTok S0 body).effs → K e a S1 := by
+    intro body S0 hS0 S1 hc he
+    have := k_foldl e _ (k_execHandlerTok e) body hS0
+    exact ⟨by rw [hc]; exact this.rc, by rw [he]; exact this.key, h.ex⟩
+  refine key _ _ ?_ _ rfl rfl
+  exact h2 _ rfl rfl
 
 theorem k_endTask {e : Nat} {a st : St} (h : K e a st) (e' : Nat) : K e a (endTask st e') := by
   unfold endTask
   split
   · next er her =>
     have h1 : K e a { st with effs := st.effs.set e' { er with woken := false, done := true } } :=
-      h.effs_ok rfl (set_key_ok _ _ _ _ her rfl)
+      h.effs_ok rfl (set_key_ok _ _ _ _ her (fun hh => ⟨hh, rfl⟩))
     exact h1.core (dropOwner · er.owner) (rc_dropOwner e _ _)
+  · exact h
+
+theorem k_prepRun {e : Nat} {a st : St} (h : K e a st) (e' : Nat) (er : EffRec) (her : st.effs[e']? = some er) :
+    K e a (prepRun st e' er) := by
+  unfold prepRun
+  simp only
+  split
+  · exact h.effs_ok rfl (set_key_ok _ _ _ _ her (fun hh => ⟨hh, rfl⟩))
+  · exact (k_clearSources h (Sub.eff e') er.sources).effs_ok rfl (set_key_ok _ _ _ _ her (fun hh => ⟨hh, rfl⟩))
+
+theorem k_afterRun {e : Nat} {a st : St} (h : K e a st) (e' : Nat) (er : EffRec) : K e a (afterRun st e' er) := by
+  unfold afterRun
+  split
+  · split
+    · exact k_runHandler h _ _
+    · exact h
   · exact h
 
 /-- a run of another effect -/
 theorem k_runEffect {e : Nat} {a st : St} (h : K e a st) (e' : Nat) (er : EffRec) (hne : e' ≠ e)
     (her : st.effs[e']? = some er) : K e a (runEffect st e' er) := by
   unfold runEffect
-  simp only
-  have h0 : ∀ S0 : St, S0.toCore = logEv (pushCur (cleanupOwner st.toCore er.owner) er.owner) (Ev.r e') →
-      S0.effs = st.effs.set e' { er with woken := false, notified := false, dirty := false, firstRun := false, sources := [] } →
-      K e a S0 := by
-    intro S0 hc he
-    have h1 : K e a { st with effs := st.effs.set e' { er with woken := false, notified := false, dirty := false, firstRun := false, sources := [] } } :=
-      h.effs_ok rfl (set_key_ok _ _ _ _ her rfl)
-    refine ⟨?_, by rw [he]; exact h1.key⟩
-    rw [hc]
-    show rCount e ((cleanupOwner st.toCore er.owner).log ++ [Ev.r e']) = _
-    rw [rCount_snoc_ne e _ _ (by intro hh; cases hh; exact hne rfl), rc_cleanupOwner]; exact h.rc
-  have key : ∀ (body : List BOp) (S0 : St), K e a S0 → ∀ S1 : St,
-      (∃ x, S1.toCore = popCur (logEv (List.foldl execBOp S0 body).toCore (Ev.s e' x)) 1) →
-      S1.effs = (List.foldl execBOp S0 body).effs → K e a S1 := by
-    intro body S0 hS0 S1 ⟨x, hc⟩ he
-    have := k_foldl e _ (k_execBOp e) body hS0
-    refine ⟨?_, by rw [he]; exact this.key⟩
-    rw [hc]
-    show rCount e ((List.foldl execBOp S0 body).log ++ [Ev.s e' x]) = _
-    rw [rCount_snoc_ne e _ _ (by intro hh; cases hh)]; exact this.rc
-  refine key _ _ ?_ _ ⟨_, rfl⟩ rfl
-  exact h0 _ rfl rfl
+  exact k_afterRun (k_runScoped (k_execBOp e) (k_prepRun h e' er her) _ _ _ hne) _ _
 
-theorem effLive_false_of_dead {st : St} {e : Nat} {er : EffRec} (h1 : st.effs[e]? = some er)
-    (h2 : KeyDead st.arena er.key) : effLive st e = false := by
-  unfold effLive; rw [h1]; simp [h2.get_none]
+/-- the entry of effect `e` is gone: no strong reference outside the arena, and the arena key (if it
+ever had one) is dead -/
+def EffDead (st : St) (e : Nat) : Prop :=
+  ∃ er, st.effs[e]? = some er ∧ er.held = false ∧ ∀ k, er.key = some k → KeyDead st.arena k
+
+theorem effLive_false_of_dead {st : St} {e : Nat} (h : EffDead st e) : effLive st e = false := by
+  obtain ⟨er, h1, h2, h3⟩ := h
+  unfold effLive; rw [h1]
+  simp only [h2, Bool.false_or]
+  unfold keyLive
+  cases hk : er.key with
+  | none => rfl
+  | some k => simp [(h3 k hk).get_none]
 
 /-- polling a task: either another effect's, or `e`'s own while its entry is dead -/
 theorem k_pollEff {e : Nat} {a st : St} (h : K e a st) (e' : Nat)
@@ -312,9 +456,9 @@ theorem k_pollEff {e : Nat} {a st : St} (h : K e a st) (e' : Nat)
           intro he; subst he
           rw [hdead rfl] at hlive; simp at hlive
         split
-        · exact h.effs_ok rfl (set_key_ok _ _ _ _ her rfl)
+        · exact h.effs_ok rfl (set_key_ok _ _ _ _ her (fun hh => ⟨hh, rfl⟩))
         · split
-          · exact h.effs_ok rfl (set_key_ok _ _ _ _ her rfl)
+          · exact h.effs_ok rfl (set_key_ok _ _ _ _ her (fun hh => ⟨hh, rfl⟩))
           · split
             · exact k_endTask (k_runEffect h e' er hne her) _
             · exact k_runEffect h e' er hne her
@@ -326,7 +470,7 @@ theorem k_markSub (e : Nat) (a st : St) (s : Sub) (h : K e a st) : K e a (markSu
     split
     · next er her =>
       split
-      · exact h.effs_ok rfl (set_key_ok _ _ _ _ her rfl)
+      · exact h.effs_ok rfl (set_key_ok _ _ _ _ her (fun hh => ⟨hh, rfl⟩))
       · exact h
     · exact h
   · split
@@ -351,25 +495,53 @@ theorem k_dropHandle (e : Nat) (a st : St) (hd : Nat) (h : K e a st) : K e a (dr
     exact h1.core (dropOwner · o) (rc_dropOwner e _ _)
   · exact h
 
+theorem k_runWc {e : Nat} {a st : St} (h : K e a st) (o b : Nat) : K e a (runWc st o b) := by
+  unfold runWc
+  simp only
+  have h0 : ∀ S0 : St, S0.toCore = pushCur (cleanupOwner st.toCore o) o → S0.effs = st.effs → K e a S0 := by
+    intro S0 hc he
+    refine ⟨?_, by rw [he]; exact h.key, h.ex⟩
+    rw [hc]
+    show rCount e (cleanupOwner st.toCore o).log = _
+    rw [rc_cleanupOwner]; exact h.rc
+  have key : ∀ (body : List BOp) (S0 : St), K e a S0 → ∀ S1 : St,
+      S1.toCore = popCur (List.foldl execBOp S0 body).toCore 1 →
+      S1.effs = (List.foldl execBOp S0 body).effs → K e a S1 := by
+    intro body S0 hS0 S1 hc he
+    have := k_foldl e _ (k_execBOp e) body hS0
+    exact ⟨by rw [hc]; exact this.rc, by rw [he]; exact this.key, h.ex⟩
+  refine key _ _ ?_ _ rfl rfl
+  exact h0 _ rfl rfl
+
+theorem k_disposeEff {e : Nat} {a st st' : St} (h : K e a st) {i : Nat} (hd : disposeEff st i = some st') :
+    K e a st' := by
+  unfold disposeEff at hd
+  split at hd
+  · next er her =>
+    split at hd
+    · next k _ =>
+      simp only [Option.some.injEq] at hd; subst hd
+      exact h.core (disposeKey · k) (rc_disposeKey e _ _)
+    · simp only [Option.some.injEq] at hd; subst hd
+      exact h.effs_ok rfl (set_key_ok _ _ _ _ her (fun hh => ⟨rfl, rfl⟩))
+  · cases hd
+
 /-! ### the effect's entry stays dead -/
 
-/-- the entry of effect `e` is dead in `st` -/
-def EffDead (st : St) (e : Nat) : Prop := ∃ er, st.effs[e]? = some er ∧ KeyDead st.arena er.key
-
 theorem EffDead.of_K {e : Nat} {a st : St} (hd : EffDead a e) (hk : K e a st) (hs : SR a st) : EffDead st e := by
-  obtain ⟨er, h1, h2⟩ := hd
-  obtain ⟨er', h3, h4⟩ := hk.key er h1
-  exact ⟨er', h3, by rw [h4]; exact (ArenaLe.reach hs).dead _ h2⟩
+  obtain ⟨er, h1, h2, h3⟩ := hd
+  obtain ⟨er', h4, h5⟩ := hk.key er h1
+  obtain ⟨h6, h7⟩ := h5 h2
+  refine ⟨er', h4, h6, fun k hk' => ?_⟩
+  rw [h7] at hk'
+  exact (ArenaLe.reach hs).dead _ (h3 k hk')
 
 theorem k_pollNth {e : Nat} {a st : St} (h : K e a st) (hs : SR a st) (hd : EffDead a e) (i : Nat) :
     K e a (pollNth st i) := by
   unfold pollNth
   simp only
   split
-  · next e' _ =>
-    refine k_pollEff h e' (fun _ => ?_)
-    obtain ⟨er, h1, h2⟩ := hd.of_K h hs
-    exact effLive_false_of_dead h1 h2
+  · next e' _ => exact k_pollEff h e' (fun _ => effLive_false_of_dead (hd.of_K h hs))
   · exact h
 
 theorem k_runIdle {e : Nat} (n : Nat) {a st : St} (h : K e a st) (hs : SR a st) (hd : EffDead a e) :
@@ -391,27 +563,33 @@ theorem k_stepOp {e : Nat} {a st st' : St} {op : Op} (h : K e a st) (hs : SR a s
     split at hop
     · cases hop
     · next os _ =>
+      have h1 : K e a (st.lift (pushAll · os)) := h.core (pushAll · os) rfl
       cases x with
       | x b =>
         simp only [Option.map_some, Option.some.injEq] at hop; subst hop
-        have h1 : K e a (st.lift (pushAll · os)) := h.core (pushAll · os) rfl
         exact (k_execBOp e a _ b h1).core (popCur · os.length) rfl
       | cleanup hh =>
         simp only at hop
         split at hop
         · next o _ =>
           simp only [Option.map_some, Option.some.injEq] at hop; subst hop
-          have h1 : K e a (st.lift (pushAll · os)) := h.core (pushAll · os) rfl
           have h2 : K e a ((st.lift (pushAll · os)).lift (cleanupOwner · o)) :=
             h1.core (cleanupOwner · o) (rc_cleanupOwner e _ _)
           exact h2.core (popCur · os.length) rfl
+        · simp at hop
+      | wc hh b =>
+        simp only at hop
+        split at hop
+        · next o _ =>
+          simp only [Option.map_some, Option.some.injEq] at hop; subst hop
+          exact (k_runWc h1 o b).core (popCur · os.length) rfl
         · simp at hop
   | child hh =>
     simp only [stepOp] at hop
     split at hop
     · next o _ =>
       simp only [Option.some.injEq] at hop; subst hop
-      refine ⟨?_, h.key⟩
+      refine ⟨?_, h.key, h.ex⟩
       show rCount e (childOwner st.toCore o).1.log = _
       unfold childOwner
       split <;> (rw [newOwnerUnder_log]; exact h.rc)
@@ -422,12 +600,25 @@ theorem k_stepOp {e : Nat} {a st st' : St} {op : Op} (h : K e a st) (hs : SR a s
     · simp only [Option.some.injEq] at hop; subst hop; exact k_dropHandle e _ _ _ h
     · cases hop
   | dispose k i =>
-    simp only [stepOp] at hop
-    split at hop
-    · next key _ =>
-      simp only [Option.some.injEq] at hop; subst hop
-      exact h.core (disposeKey · key) (rc_disposeKey e _ _)
-    · cases hop
+    have plain : ∀ key : Key, K e a (st.lift (disposeKey · key)) :=
+      fun key => h.core (disposeKey · key) (rc_disposeKey e _ _)
+    cases k with
+    | e => simp only [stepOp] at hop; exact k_disposeEff h hop
+    | i =>
+      simp only [stepOp] at hop
+      split at hop
+      · simp only [Option.some.injEq] at hop; subst hop; exact plain _
+      · cases hop
+    | s =>
+      simp only [stepOp] at hop
+      split at hop
+      · simp only [Option.some.injEq] at hop; subst hop; exact plain _
+      · cases hop
+    | m =>
+      simp only [stepOp] at hop
+      split at hop
+      · simp only [Option.some.injEq] at hop; subst hop; exact plain _
+      · cases hop
   | set s v =>
     simp only [stepOp] at hop
     split at hop
@@ -460,5 +651,9 @@ theorem k_runOps {e : Nat} {a st : St} (h : K e a st) (hs : SR a st) (hd : EffDe
     cases hop : stepOp st op with
     | none => simpa using ih h hs
     | some st' => simpa using ih (k_stepOp h hs hd hop) (sr_stepOp hs hop)
+
+theorem EffDead.lt {st : St} {e : Nat} (h : EffDead st e) : e < st.effs.length := by
+  obtain ⟨er, h1, _⟩ := h
+  exact lt_of_getElem?_some h1
 
 end Leptos.Owner
